@@ -300,6 +300,11 @@ def run_inverse(sx, cfg, env):
         x = cm.convert_physical_to_internal(y)
     except OdxError as e:
         sx.observe("error", type(e).__name__)
+        if cfg.get("may_refuse"):
+            # a method that is not invertible as a whole (a jump, slopes of both signs) may refuse
+            # to encode; what it must not do is return something that is not a pre-image
+            sx.cover("refused")
+            return
         sx.fail("valid-physical-value-converts")
         return
     sx.observe("x", x)
@@ -425,7 +430,10 @@ def run_limit(sx, cfg, env):
     from odxtools.compumethods.limit import Limit, IntervalType
     from odxtools.odxtypes import DataType, compare_odx_values
     vt = cfg["vt"]
-    x, _ = operand(sx, "x", vt, cfg["bits"])
+    if cfg.get("anyfloat"):
+        x = sx.float64("x", allow_nan=False)  # EVERY binary64 but NaN, not only the grid k/4
+    else:
+        x, _ = operand(sx, "x", vt, cfg["bits"])
     lv = cfg["value"]
     lim = Limit(value_raw=None if lv is None else str(lv), value_type=DataType(vt),
                 interval_type=None if cfg["itype"] is None else IntervalType(cfg["itype"]))
@@ -531,6 +539,9 @@ def methods(tier):
         "jump": [_lin(0, 1, 1, -100, 0), _lin(10, 1, 1, 0, 100, "OPEN")],
         "mixed": [_lin(0, 1, 1, -100, 0), _lin(0, -1, 1, 0, 100, "OPEN")],
         "overlap": [_lin(0, 1, 1, -100, 10), _lin(100, 2, 1, 0, 100)],
+        # jumps between scales that share their (closed) boundary value: not invertible
+        "jump-up-closed": [_lin(0, 1, 1, 0, 10), _lin(5, 1, 1, 10, 20)],
+        "jump-down-closed": [_lin(5, 1, 1, 0, 10), _lin(0, 1, 1, 10, 20)],
         "const": [_lin(0, 1, 1, -100, 0), _lin(0, 0, 1, 0, 10, "OPEN", inv=5), _lin(-10, 1, 1, 10, 100, "OPEN")],
         "decr-plateau": [_lin(0, -1, 1, -100, 0), _lin(0, 0, 1, 0, 10, "OPEN", inv=5),
                          _lin(20, -2, 1, 10, 60, "OPEN")],
@@ -632,6 +643,10 @@ def configs(tier, seed):
         if cat == "SCALE-LINEAR" and name in vr and pt_ in INTS:
             out.append(dict(base, harness="inverse", bits=9, valid_range=vr[name],
                             id=f"inverse/{cat}/{it_}-{pt_}/{name}"))
+        if cat == "SCALE-LINEAR" and name in ("jump-up-closed", "jump-down-closed", "jump", "mixed",
+                                              "gap") and pt_ in INTS:
+            out.append(dict(base, harness="inverse", bits=8, may_refuse=True,
+                            id=f"inverse-or-refuse/{cat}/{it_}-{pt_}/{name}"))
         if cat in ("RAT-FUNC", "SCALE-RAT-FUNC") and "inv_scales" in cm and pt_ in FLOATS:
             out.append(dict(base, harness="roundtrip", bits=bits,
                             id=f"roundtrip/{cat}/{it_}-{pt_}/{name}"))
@@ -671,6 +686,11 @@ def configs(tier, seed):
             for value in (None, 0, 7, -3) if vt != "A_UINT32" else (None, 0, 7):
                 out.append({"harness": "limit", "vt": vt, "itype": itype, "value": value, "bits": 10,
                             "id": f"limit/{vt}/{itype}/{value}", "build": {}})
+    for itype in (None, "OPEN", "CLOSED"):
+        for value in (0, 1, -3, 0.5, 1e-12):
+            out.append({"harness": "limit", "vt": "A_FLOAT64", "itype": itype, "value": value,
+                        "bits": 64, "anyfloat": True,
+                        "id": f"limit/A_FLOAT64-any/{itype}/{value}", "build": {}})
     for n in (1, 2, 3):
         for itype in (None, "OPEN", "CLOSED", "INFINITE"):
             for value in ("10", "1000", "0fff", "00"):
